@@ -26,7 +26,19 @@ Oracle (only what the property statement fixes):
   same-files        zip members == relative files of a directory written from the same model
   same-files:text   text members equal after normalising the id() numbers the format embeds
 A write that raises is not a violation of the statement (it presupposes a successful write); it
-is counted and listed in the evidence (``write_errors``).
+is counted and listed in the evidence (``write_errors``).  Programs the API rejects while being
+built (e.g. an input for an uncached cells, ``None`` as input without allow_none, a relative
+reference that cannot be rebound in a sub space) are counted as ``unbuildable``; attribute
+combinations that denote nothing (a mode for a model-level reference) as ``na``.
+
+Probe arguments: 0 makes the generated formulas return None (observes the *effective*
+allow_none of cells / space / model), 1 hits the input keys, 2 and (2, 3) always calculate; in
+``warm`` cases the probes run before the write, so the written model holds calculated values and
+live ItemSpaces, which must not come back as inputs.
+
+Violations are minimised inside the worker with a memoised greedy shrinker (context -> simpler
+context, every attribute -> its default, zip -> dir, chain 2 -> 1, warm -> cold), so that one
+root cause yields one small signature.
 """
 import os
 import re
@@ -1163,9 +1175,8 @@ def _other_items(tier):
 
 
 def work_items(tier, seed):
-    items = _other_items(tier) + _cells_items(tier)
-    # interleave so that expensive and cheap items are spread over the pool
-    return items
+    # the larger (reference) items first, the many small cells items fill the pool afterwards
+    return _other_items(tier) + _cells_items(tier)
 
 
 def cases_of(item):
